@@ -98,10 +98,14 @@ func runC10(c *Ctx, n, t int, seed uint64) {
 	}
 	// anyone may post a reinitialisation message (it is not authenticated): an empty one for an unused
 	// round id and a malformed one travel on the board too; neither may weaken what follows
-	for _, d := range []string{`{"dkg_id":"` + strings.Repeat("e", 64) + `","threshold":2,"participants":[],"messages":[]}`, `{"dkg_id":"","threshold":0}`} {
+	tailRejected := `{"dkg_id":"` + strings.Repeat("c", 64) + `","threshold":2,"participants":[],"messages":[{"id":"x","dkg_round_id":"` + strings.Repeat("c", 64) + `","offset":0,"event":"event_dkg_commit_confirm_received","data":"e30=","signature":"AA==","sender":"nobody","recipient":""}]}`
+	for _, d := range []string{`{"dkg_id":"` + strings.Repeat("e", 64) + `","threshold":2,"participants":[],"messages":[]}`, `{"dkg_id":"","threshold":0}`, tailRejected} {
 		rid := strings.Repeat("e", 64)
 		if strings.Contains(d, `"dkg_id":""`) {
 			rid = ""
+		}
+		if d == tailRejected {
+			rid = strings.Repeat("c", 64)
 		}
 		_ = w.Board.Send(storage.Message{DkgRoundID: rid, Event: EvReinit, Data: []byte(d), SenderAddr: "anyone", Signature: []byte("x")})
 	}
@@ -179,8 +183,23 @@ func runC10(c *Ctx, n, t int, seed uint64) {
 							data []byte
 						}{tw, data})
 					}
-					for _, va := range variants {
+					for vi, va := range variants {
 						forged := world.SignMsg(S, g.DkgRoundID, va.ev, va.data, g.RecipientAddr)
+						if vi == 0 {
+							// the same bytes also under P's own name (signature still S's): what P's own node and
+							// every other node record for P must not move either
+							named := forged
+							named.SenderAddr = g.SenderAddr
+							nd.Mem.Restore(m.Snaps[v])
+							b0 := participantEntries(nd, g.DkgRoundID, P)
+							err0, _, pan0 := applyAt(w, m, v, named)
+							a0 := participantEntries(nd, g.DkgRoundID, P)
+							c.Eval(1)
+							c.Distinct(fmt.Sprintf("impersonation-under-own-name|%s|%s", va.ev, stateName))
+							if pan0 == nil && b0 != a0 {
+								c.Violate("C10/contribution-in-P's-name-signed-by-another-key:"+va.ev, fmt.Sprintf("%s naming participant %d, sent under %s's name but signed with %s's key: accepted=%v by %s; what it records for participant %d changed", va.ev, P, g.SenderAddr, S.Name, err0 == nil, nd.Name, P), baseWit(map[string]interface{}{"signed_by": S.Name}))
+							}
+						}
 						nd.Mem.Restore(m.Snaps[v])
 						before := participantEntries(nd, g.DkgRoundID, P)
 						err, diff, pan := applyAt(w, m, v, forged)
